@@ -7,6 +7,8 @@ import (
 	"math/rand/v2"
 	"strconv"
 
+	"github.com/avos-io/goat/gen/goatorepo"
+	"google.golang.org/grpc"
 	"google.golang.org/grpc/metadata"
 	"google.golang.org/protobuf/types/known/wrapperspb"
 )
@@ -41,7 +43,16 @@ func execC05Ids(e *Env, pp any) {
 		return
 	}
 	sim := NewSim(e)
+	// two calls in three tag their response header and trailer with their own
+	// identity; the third sets none and must receive none (whatever a call
+	// observes - message, header, trailer, status - is its own)
+	setsHeader := func(tag string) bool { return len(tag) > 0 && (tag[len(tag)-1]-'0')%3 != 2 }
 	sim.DefaultUnary = func(ctx context.Context, req []byte) ([]byte, error) {
+		md, _ := metadata.FromIncomingContext(ctx)
+		if v := md.Get("x-sim-seq"); len(v) > 0 && setsHeader(v[0]) {
+			grpc.SetHeader(ctx, metadata.Pairs("x-owner", v[0]))
+			grpc.SetTrailer(ctx, metadata.Pairs("x-owner-t", v[0]))
+		}
 		return append([]byte("re:"), req...), nil
 	}
 	srv := sim.NewServer()
@@ -69,6 +80,31 @@ func execC05Ids(e *Env, pp any) {
 		}
 		seen[r.GetId()] = tag
 		histMu.Unlock()
+	})
+	foreignMD := 0
+	net.CEnds[0].In.OnWritten(func(n int, r *Rpc) {
+		histMu.Lock()
+		defer histMu.Unlock()
+		own, known := seen[r.GetId()]
+		if !known {
+			return
+		}
+		chk := func(where string, kvs []*goatorepo.KeyValue, key string) {
+			for _, kv := range kvs {
+				if kv.GetKey() != key {
+					continue
+				}
+				if kv.GetValue() != own || !setsHeader(own) {
+					foreignMD++
+					if foreignMD <= 3 {
+						e.Violations = append(e.Violations, Violation{Property: "C05", Class: "foreign-metadata", Site: "unary." + where,
+							Detail: fmt.Sprintf("the reply to call %s (id %d) carries %s %s=%q, which belongs to another call", own, r.GetId(), where, key, kv.GetValue())})
+					}
+				}
+			}
+		}
+		chk("header", r.GetHeader().GetHeaders(), "x-owner")
+		chk("trailer", r.GetTrailer().GetMetadata(), "x-owner-t")
 	})
 	wrong := 0
 	done := 0
